@@ -162,6 +162,7 @@ def regex_call(I, how, pattern, s):
             mv.start = 0
     if groups is not None:
         mv.declared_only = True
+    I.p.ghost.setdefault(('env_matches', key), []).append(mv)      # visible to contract clauses as env_matches(key)
     if extra.get('end_anchored'):
         # R2: the pattern text ends in an unescaped '$' (checked separately as a syntactic obligation)
         I.p.assume(I.term(mv.end) == I.term(lib.length(I, s)))
